@@ -131,6 +131,8 @@ def c18_checks(run, runs, xs, args):
             run.finding("reported-cost:%s" % r["algo"], "counterexample", "cost_function() = %.17g but the cost function at the returned state is %.17g (status %s; %s)" % (r["rep"], r["true"], STATUS.get(r["status"]), describe(r)), pay)
         elif not invalid and r["true"] > r["starttrue"] + 1e-9 * abs(r["starttrue"]) + 1e-12:
             run.finding("monotone:%s" % r["algo"], "counterexample", "the cost at the returned state, %.17g, exceeds the cost at the (projected) start, %.17g (%s)" % (r["true"], r["starttrue"], describe(r)), pay)
+        elif not invalid and not close(r["startrep"], r["starttrue"]):
+            run.finding("start-cost:%s" % r["algo"], "counterexample", "start_cost_function() = %.17g but the cost function at the start moved onto the box is %.17g (%s)" % (r["startrep"], r["starttrue"], describe(r)), pay)
         elif r["status"] == 0 and r["gfree"] > r["thr"] * (1 + 1e-6):
             run.finding("converged:%s" % r["algo"], "counterexample",
                         "status SUCCESS with threshold %.1e, but the norm of the gradient over the components not pinned to a bound by its sign is %.6g at the returned x=%s (%s)" % (r["thr"], r["gfree"], r["x"], describe(r)), pay)
@@ -247,7 +249,7 @@ def correspondence(run, runs, args, stats):
 
 def check(run, replay=None, cid="C18"):
     tier, seed = run.tier, run.seed
-    C.standard_coq_phase(run, cid)
+    C.standard_coq_phase(run, cid, gens=("minim",) if cid == "C18" else ())
     ok, msg = C.ensure_ocaml()
     bd = C.build_dir()
     exe = os.path.join(bd, "c18")
